@@ -141,6 +141,7 @@ def expected : List (Site × Just) := [
   (("parser/parser.go", "Parser.parseSimpleStmt", "index", "x[0]", 14), .exprListNonEmpty),
   (("parser/parser.go", "Parser.parseSimpleStmt", "index", "x[1]", 3), .guardedByLengthCheck),
   (("parser/parser.go", "Parser.printTrace", "slice", "dots[0:i]", 1), .traceOnly),
+  (("parser/parser.go", "incNestLev", "panic", "bailout{}", 1), .recoveredBailout),
   (("parser/scanner.go", "NewScanner", "panic", "fmt.Sprintf(\"file size (%d) does not match src l…", 1), .apiContract),
   (("parser/scanner.go", "Scanner.next", "index", "s.src[s.readOffset]", 1), .guardedByLengthCheck),
   (("parser/scanner.go", "Scanner.next", "slice", "s.src[s.readOffset:]", 1), .guardedByLengthCheck),
@@ -235,8 +236,9 @@ def expectSemiBody : List String := [
   "{ switch p.token { case token.RParen, token.RBrace: case token.Comma: p.errorExpected(p.pos, \"';'\") fallthrough case token.Semicolon: p.next() default: p.errorExpected(p.pos, \"';'\") p.advance(stmtStart) } }"
 ]
 
-/-- `bailout` is raised in one place. -/
-def bailoutRaised : List String := ["parser/parser.go: Parser.error"]
+/-- `bailout` is raised in two places: after more than 10 errors, and by the nesting-depth limit (O45); both only
+under `ParseFile`, whose deferred function recovers it. -/
+def bailoutRaised : List String := ["parser/parser.go: Parser.error", "parser/parser.go: incNestLev"]
 
 end Expect
 
